@@ -99,7 +99,38 @@ def sig_c20(rec):
     return sig_flight(rec)
 
 
+CONFIG_TRUST = [
+    "model coq/Model/Config.v is hand-written from config/config.go (Validate), the five Reset functions (compress, cache, upstream, location, server incl. NewServer/Update) and main.update; tied by the config and reconf families (real Validate, real Reset functions in update's order, exported getters, a fresh child process for the comparison)",
+    "library-defined field validators (go-playground/validator built-ins, time.ParseDuration, humanize.ParseBytes, regexp, url.Parse) are validity bits per field; gopkg.in/yaml.v2 round trip is sampled only",
+]
+
 PROPS = {
+    "C17": {
+        "families": {"config": {"quick": 400, "thorough": 8000, "search": 2000}},
+        "signature": lambda rec: "config:" + str((rec.get("case") or {}).get("kind", "")) + str((rec.get("case") or {}).get("config"))[:170],
+        "trusted_base": CONFIG_TRUST,
+        "assumptions": ["names are ASCII (max=20 counts runes; the model counts bytes)", "servers are not started (no sockets) when configurations are applied by the harness"],
+        "explanation": "validate_closed + apply_resolves over any prior registry state.",
+    },
+    "C16": {
+        "families": {"reconf": {"quick": 40, "thorough": 600, "search": 150, "components": ["mismatch", "monitor"]}},
+        "signature": lambda rec: "reconf:" + json_short((rec.get("case") or {}).get("configs"))[:180],
+        "trusted_base": CONFIG_TRUST,
+        "assumptions": ["listening sockets, graceful close timing and in-flight client traffic during an update are runtime behaviour (partial): the model covers what every request resolves at each intermediate step",
+                        "size / hit-for-pass / store of a surviving cache, log format and the admin server are the documented restart-only settings"],
+        "explanation": "live_equals_fresh for all histories; unchanged servers resolve at every sub-step; surviving caches retained; removed servers dropped.",
+    },
+    "C19": {
+        "families": {"upstream": {"quick": 150, "thorough": 3000, "search": 600}},
+        "signature": lambda rec: "upstream:" + json_short((rec.get("case") or {}).get("ops"))[:180],
+        "trusted_base": [
+            "model coq/Model/Upstream.v is hand-written from github.com/vicanso/upstream v0.2.0 (Next, policies, status rule of DoHealthCheck) and pike's newTargetPicker / NewUpstreamServer; tied by the upstream family (real library objects built by pike, real health-check rounds against local listeners)",
+            "math/rand is an arbitrary value in the theorems; for the random policy the correspondence checks validity of the pick only",
+        ],
+        "assumptions": ["health-check timers, TCP/HTTP probing and settle time are runtime behaviour (partial): a round's ping results are inputs of the model",
+                        "the round-robin window does not cross the uint32 wrap of the counter"],
+        "explanation": "next_healthy / none_iff for all policies and status vectors; round-robin evenness by a closed form for residue counts; health rule.",
+    },
     "C20": {
         "families": {"flight": flight_family(120, 1500, 300), "wakeup": WAKEUP_FAMILY,
                      "negotiate": {"quick": 300, "thorough": 8000, "search": 3000, "components": NEGOTIATE_COMPONENTS}},
